@@ -179,6 +179,38 @@ theorem flags_only_shrink {v : VM} (h : Exec v) (s : SC) (rest : List SC) (hv : 
 example : ((VM.empty.run [.loadWithFlags 0xE0 fAll, .contractCall 0xC2 (fReadStates ||| fAllowCall ||| fAllowNotify) false false,
       .runtimeLoadScript 0xD1 fAll]).toOption.bind (·.flags)) = some fReadOnly := by decide
 
+/-- C15-frames-10. The entry relation at EVERY depth. In every reachable state the invocation stack holds at
+most MaxInvocationStackSize contexts (the regenerated constant), and `IsCalledByEntry` of the executing
+context depends only on whether its calling context is the entry context (the bottom of the stack) or there
+is none — for every number of live loads, an unbounded natural number in the model: it is true for 1 and 2 live
+loads and false for every larger number; there is no period at which it becomes true again. -/
+theorem entry_relation_all_depths {v : VM} (hv : Honest v) (s : SC) (rest : List SC) (hst : v.istack = s :: rest) :
+    v.istack.length ≤ maxInvocationStackSize ∧
+    maxInvocationStackSize = Generated.WitnessFrames.maxInvocationStackSize ∧
+    (s.isCalledByEntry = true ↔ (s.calling? = none ∨ s.calling? = v.istack.getLast?)) ∧
+    (s.isCalledByEntry = true ↔ v.liveLoads ≤ 2) ∧
+    (∀ n, v.liveLoads = n + 3 → s.isCalledByEntry = false) := by
+  have hc : Chain (s :: rest) := by rw [← hst]; exact reach_chain hv
+  have hlast : v.istack.getLast? = some (.root s.rootFrame) := by rw [hst]; exact chain_getLast s rest hc
+  have hg := getters_of_execution hv (fun _ => none) _ (env_of_cons _ hst)
+  have hcbe : s.isCalledByEntry = decide (v.liveLoads ≤ 2) := by
+    rw [← hg.2.2.2.1, isCalledByEntry_env]
+  refine ⟨reach_bounded hv, rfl, ?_, by rw [hcbe]; simp, ?_⟩
+  · rw [hlast]
+    cases s with
+    | root f => simp [SC.isCalledByEntry, SC.calling?]
+    | child f p =>
+      cases p with
+      | root g => simp [SC.isCalledByEntry, SC.calling?, SC.rootFrame]
+      | child g q => simp [SC.isCalledByEntry, SC.calling?]
+  · intro n hn
+    rw [hcbe, hn]; simp
+
+
+-- three live loads (entry -> 0xC2 -> 0xC1): not called by entry, by the theorem
+example : (SC.child ⟨0xC1, 0xC2, fAll⟩ (.child ⟨0xC2, 0xE0, fAll⟩ (.root ⟨0xE0, 0, fAll⟩))).isCalledByEntry = false := by
+  decide
+
 /-! ### 2b. Exceptions: the unwinding depth is computed from the try stacks -/
 
 /-- C15-frames-8. THROW (and an ENDFINALLY that re-throws): the contexts popped are exactly those above the
